@@ -583,8 +583,10 @@ def c11(report, rng, tier, findings):
     cases = []
     for i in range(n):
         nv = rng.choice((1, 1, 2))
-        cfg = gen.Cfg(n_vars=(nv, nv), n_objs=(1, 4) if nv == 1 else (1, 3), depth=2, preds=True, empty_domain=0.0,
-                      falsy=0.3, int_range=(0, 2), subclasses=0.0)
+        if i % 8 == 7:
+            nv = 2            # (the template below needs two variables)
+        cfg = gen.Cfg(n_vars=(nv, nv), n_objs=(1, 4) if nv == 1 else ((1, 3) if i % 8 != 7 else (2, 4)), depth=2, preds=True,
+                      empty_domain=0.0, falsy=0.3, int_range=(0, 2), subclasses=0.0)
         base = gen.gen_case(rng, cfg, 'x')
         ids = [v[0] for v in base['vars']]
         g = gen.CondGen(rng, cfg, ids)
